@@ -46,6 +46,8 @@ type ItemResult struct {
 	Stats        QueryStats
 	Err          string
 	SampleObl    string
+	IfConverted  int
+	UFCongruence int
 	WallS        float64
 }
 
@@ -70,6 +72,7 @@ type Exec struct {
 	shape   []int
 	violSeen map[string]int
 	aesApps  map[*Term]bool
+	spec     *Term // non-nil while speculating a block under this condition (if-conversion)
 }
 
 func deref(t types.Type) types.Type {
@@ -82,7 +85,7 @@ func deref(t types.Type) types.Type {
 
 // ---------- driver for one work item ----------
 
-func (ex *Exec) RunItem(h *ssa.Function, shape []int) *ItemResult {
+func (ex *Exec) RunItem(h *ssa.Function, shape []int) (out *ItemResult) {
 	ex.res = &ItemResult{Harness: h.Name(), Pkg: h.Pkg.Pkg.Path(), Shape: shape, Reached: map[string]int{}, Funcs: map[string]bool{}}
 	ex.consts = map[*ssa.Const]Value{}
 	ex.violSeen = map[string]int{}
@@ -94,6 +97,7 @@ func (ex *Exec) RunItem(h *ssa.Function, shape []int) *ItemResult {
 		if r := recover(); r != nil {
 			if e, ok := r.(engineErr); ok {
 				ex.res.Err = e.msg
+				out = ex.res
 				return
 			}
 			panic(r)
@@ -375,6 +379,9 @@ func shortFile(f string) string {
 }
 
 func (ex *Exec) record(st *State, kind, label, knownID string, vals []ReplayVal) {
+	if ex.spec != nil {
+		panic(specAbort{})
+	}
 	f := Finding{Harness: ex.harness.Name(), Pkg: ex.res.Pkg, Shape: ex.shape, Kind: kind, Label: label, Pos: ex.posOf(st), KnownID: knownID, Values: vals, MapDesc: ex.cfg.MapDesc}
 	key := kind + "|" + label + "|" + knownID
 	ex.violSeen[key]++
@@ -401,6 +408,9 @@ func (ex *Exec) oblige(st *State, cond *Term, kind, label, knownID string) {
 		ex.res.Discharged++
 		ex.res.Trivial++
 		return
+	}
+	if ex.spec != nil {
+		panic(specAbort{})
 	}
 	res, vals := ex.modelFor(st, ex.ctx.Not(cond))
 	switch res {
@@ -855,7 +865,16 @@ func (ex *Exec) step(st *State, fr *Frame, in ssa.Instruction) {
 		fr.ip++
 	case *ssa.Store:
 		p := ex.val(st, fr, x.Addr).(PtrV)
-		ex.store(st, p, ex.val(st, fr, x.Val))
+		nv := ex.val(st, fr, x.Val)
+		if ex.spec != nil {
+			old := ex.load(st, p)
+			m, ok := ex.iteValue(ex.spec, nv, old)
+			if !ok {
+				panic(specAbort{})
+			}
+			nv = m
+		}
+		ex.store(st, p, nv)
 		fr.ip++
 	case *ssa.FieldAddr:
 		p := ex.val(st, fr, x.X).(PtrV)
@@ -1021,6 +1040,10 @@ func (ex *Exec) doIf(st *State, fr *Frame, x *ssa.If) {
 		}
 		return
 	}
+	if ex.tryIfConvert(st, x, cond) {
+		return
+	}
+	fr = st.top()
 	ncond := c.Not(cond)
 	ft := ex.feasible(st, cond)
 	fe := true
@@ -1713,6 +1736,10 @@ func (ex *Exec) builtin(st *State, fr *Frame, b *ssa.Builtin, cc *ssa.CallCommon
 		return TupleV{}
 	case "print", "println":
 		return TupleV{}
+	case "ssa:wrapnilchk":
+		p := arg(0).(PtrV)
+		ex.nilCheck(st, p.Obj, "value method called via nil pointer")
+		return p
 	case "min", "max":
 		r := arg(0).(*Term)
 		signed := isSigned(cc.Args[0].Type())
@@ -1743,3 +1770,143 @@ func (ex *Exec) builtin(st *State, fr *Frame, b *ssa.Builtin, cc *ssa.CallCommon
 	throwf("unsupported builtin %s on %T", b.Name(), arg(0))
 	return nil
 }
+
+
+// ---------- if-conversion of simple triangles / diamonds (with conditional stores) ----------
+
+type specAbort struct{}
+
+func simpleBlock(b *ssa.BasicBlock) bool {
+	if len(b.Preds) != 1 || len(b.Instrs) == 0 || len(b.Instrs) > 24 {
+		return false
+	}
+	if _, ok := b.Instrs[len(b.Instrs)-1].(*ssa.Jump); !ok {
+		return false
+	}
+	for _, in := range b.Instrs[:len(b.Instrs)-1] {
+		switch y := in.(type) {
+		case *ssa.DebugRef, *ssa.ChangeType, *ssa.FieldAddr, *ssa.IndexAddr, *ssa.Field, *ssa.Index, *ssa.Store, *ssa.Extract, *ssa.MakeInterface, *ssa.ChangeInterface:
+		case *ssa.BinOp:
+			if bt, ok := y.X.Type().Underlying().(*types.Basic); ok && bt.Info()&types.IsString != 0 && y.Op == token.ADD {
+				return false
+			}
+		case *ssa.UnOp:
+			if y.Op == token.ARROW {
+				return false
+			}
+		case *ssa.Convert:
+			fb, ok1 := y.X.Type().Underlying().(*types.Basic)
+			tb, ok2 := y.Type().Underlying().(*types.Basic)
+			if !ok1 || !ok2 || fb.Info()&types.IsString != 0 || tb.Info()&types.IsString != 0 {
+				return false
+			}
+		default:
+			return false
+		}
+	}
+	return true
+}
+
+func predIndex(b, pred *ssa.BasicBlock) int {
+	for i, p := range b.Preds {
+		if p == pred {
+			return i
+		}
+	}
+	return -1
+}
+
+// tryIfConvert merges "if c { simple } [else { simple }]" into ite-phis and conditional stores
+// instead of forking. Any obligation that is not trivially true inside the speculated blocks
+// aborts the attempt (the state is restored and the branch forks as usual).
+func (ex *Exec) tryIfConvert(st *State, x *ssa.If, cond *Term) bool {
+	if noIfConvert || ex.spec != nil {
+		return false
+	}
+	cur := st.frames[len(st.frames)-1].block
+	tb, eb := cur.Succs[0], cur.Succs[1]
+	if tb == eb {
+		return false
+	}
+	var join, tPred, ePred *ssa.BasicBlock
+	tS, eS := simpleBlock(tb), simpleBlock(eb)
+	switch {
+	case tS && eS && tb.Succs[0] == eb.Succs[0]:
+		join, tPred, ePred = tb.Succs[0], tb, eb
+	case tS && tb.Succs[0] == eb:
+		join, tPred, ePred = eb, tb, cur
+	case eS && eb.Succs[0] == tb:
+		join, tPred, ePred = tb, cur, eb
+	default:
+		return false
+	}
+	ti, ei := predIndex(join, tPred), predIndex(join, ePred)
+	if ti < 0 || ei < 0 {
+		return false
+	}
+	bak := st.fork()
+	ok := func() (ok bool) {
+		defer func() {
+			ex.spec = nil
+			if r := recover(); r != nil {
+				switch r.(type) {
+				case specAbort, pathEnd, needFork:
+					ok = false
+				default:
+					panic(r)
+				}
+			}
+		}()
+		fr := st.top()
+		runBlock := func(b *ssa.BasicBlock, c *Term) {
+			if b == cur {
+				return
+			}
+			ex.spec = c
+			saveB, saveIP := fr.block, fr.ip
+			fr.block, fr.ip = b, 0
+			for _, in := range b.Instrs[:len(b.Instrs)-1] {
+				ex.step(st, fr, in)
+			}
+			fr.block, fr.ip = saveB, saveIP
+			ex.spec = nil
+		}
+		runBlock(tPred, cond)
+		runBlock(ePred, ex.ctx.Not(cond))
+		var phis []*ssa.Phi
+		var vals []Value
+		for _, in := range join.Instrs {
+			phi, isPhi := in.(*ssa.Phi)
+			if !isPhi {
+				break
+			}
+			vt := ex.val(st, fr, phi.Edges[ti])
+			ve := ex.val(st, fr, phi.Edges[ei])
+			m, mok := ex.iteValue(cond, vt, ve)
+			if !mok {
+				return false
+			}
+			phis = append(phis, phi)
+			vals = append(vals, m)
+		}
+		fr.visits[join.Index]++
+		if fr.visits[join.Index] > ex.cfg.MaxVisits {
+			return false
+		}
+		for i, phi := range phis {
+			ex.setReg(fr, phi, vals[i])
+		}
+		fr.prev = tPred
+		fr.block = join
+		fr.ip = len(phis)
+		return true
+	}()
+	if !ok {
+		*st = *bak
+		return false
+	}
+	ex.res.IfConverted++
+	return true
+}
+
+var noIfConvert = false
